@@ -32,22 +32,26 @@ Fixpoint zip_plans (cs : list conn) (pls : list plan) : list (conn * plan) :=
 (* the TLS configuration of the client and, per connection, what crypto/x509 says about the
    certificate the server presents: the MODEL decides the outcome of StartTLS from them
    (TlsPolicy.start_tls) -- the bit the harness computed on its own is not used *)
-Definition dec_cert (x : sx) : option cert :=
+(* third component: the server saw this connection's TLS session RESUMED (observed; false when absent) *)
+Definition dec_cert (x : sx) : option (cert * bool) :=
   match x with
-  | SL [tr; ns] => do tr' <- as_b tr; do ns' <- as_list as_s ns; Some {| c_trusted := tr'; c_names := ns' |}
+  | SL [tr; ns] => do tr' <- as_b tr; do ns' <- as_list as_s ns; Some ({| c_trusted := tr'; c_names := ns' |}, false)
+  | SL [tr; ns; rs] =>
+      do tr' <- as_b tr; do ns' <- as_list as_s ns; do rs' <- as_b rs;
+      Some ({| c_trusted := tr'; c_names := ns' |}, rs')
   | _ => None
   end.
-Definition dec_tlsdata (x : sx) : option (tlsconf * list cert) :=
+Definition dec_tlsdata (x : sx) : option (tlsconf * list (cert * bool)) :=
   match x with
   | SL [sk; SS sn; SS dom; cs] =>
       do sk' <- as_b sk; do cs' <- as_list dec_cert cs;
       Some ({| t_skip := sk'; t_servername := sn; t_domain := dom |}, cs')
   | _ => None
   end.
-Fixpoint decide_tls (t : tlsconf) (cs : list conn) (certs : list cert) : list conn :=
+Fixpoint decide_tls (t : tlsconf) (cs : list conn) (certs : list (cert * bool)) : list conn :=
   match cs, certs with
-  | c :: cs', ct :: certs' =>
-      {| k_dial := k_dial c; k_tls := start_tls t ct; k_script := k_script c; k_traffic := k_traffic c |}
+  | c :: cs', (ct, resumed) :: certs' =>
+      {| k_dial := k_dial c; k_tls := start_tls_r t ct resumed; k_script := k_script c; k_traffic := k_traffic c |}
       :: decide_tls t cs' certs'
   | _, _ => cs
   end.
@@ -63,14 +67,21 @@ Fixpoint flags_sx (rs : list (list out * result * persist)) : list (sx * sx) :=
        SB (match r with Ok => xorb (p_tls_enabled p) (existsb o_tls w) | Err _ _ => false end)) :: flags_sx rs'
   end.
 
-Fixpoint zip_out (gs : list (list sres)) (fl : list (sx * sx)) : list sx :=
+Fixpoint zip_out (gs : list (list sres)) (fl : list (sx * sx)) (resumed : list bool) : list sx :=
   match gs with
   | [] => []
   | rs :: gs' =>
       let '(a, b) := hd (SB false, SB false) fl in
       (* what became of the sends; what the server received outside TLS besides stream headers,
          <starttls/> and the closing tag when Insecure is off: nothing; the two flag checks *)
-      SL [SL (map sres_sx rs); SS []; a; b] :: zip_out gs' (tl fl)
+      (* ... and for a sender held inside its write while this connection attempt was started: did the
+         dial overtake it (Gate.dial_overtakes_writer: the lock does not permit it), did its stanza end
+         up in clear text on the new connection *)
+      (* last: whether the server saw the TLS session resumed -- an input from the environment (it must not
+         matter to anything else: C04_resumed_session_irrelevant), echoed *)
+      SL [SL (map sres_sx rs); SS []; a; b; SB (dial_overtakes_writer true); SB (dial_overtakes_writer true);
+          SB (hd false resumed)]
+      :: zip_out gs' (tl fl) (tl resumed)
   end.
 
 Definition run_gate (y plans tlsdata : sx) : sx :=
@@ -79,7 +90,7 @@ Definition run_gate (y plans tlsdata : sx) : sx :=
       let cs := decide_tls t cs0 certs in
       SL [run_typed (cfg, sme, cs, sbs);
           SL (zip_out (gate_conns cfg (fresh sme) gate0 (zip_plans cs pls))
-                      (flags_sx (run_conns cfg (fresh sme) cs)))]
+                      (flags_sx (run_conns cfg (fresh sme) cs)) (map snd certs))]
   | _, _, _ => decode_error
   end.
 
